@@ -36,6 +36,7 @@ type vfC02Case struct {
 	ClientTF    *vfTF
 	SubMetaTTL  int
 	Positioning bool
+	Window      []map[string]string // tags of publications issued while the subscribe is parked right after its history read
 }
 
 func (o vfC02Op) String() string {
@@ -53,8 +54,12 @@ func (c vfC02Case) String() string {
 	for i, o := range c.Ops {
 		ops[i] = o.String()
 	}
-	return fmt.Sprintf("ttl=%ds meta=%ds limit=%d ops=[%s] sub{mode=%d proto=%s offPick=%d epochKind=%d reject=%v serverTF=%s clientTF=%s subMeta=%ds}",
-		c.TTL, c.MetaTTL, c.Limit, strings.Join(ops, " "), c.Mode, c.Proto, c.OffPick, c.EpochKind, c.Reject, c.ServerTF, c.ClientTF, c.SubMetaTTL)
+	win := make([]string, len(c.Window))
+	for i, t := range c.Window {
+		win[i] = vfTagsStr(t)
+	}
+	return fmt.Sprintf("ttl=%ds meta=%ds limit=%d ops=[%s] sub{mode=%d proto=%s offPick=%d epochKind=%d reject=%v serverTF=%s clientTF=%s subMeta=%ds} windowPubs=[%s]",
+		c.TTL, c.MetaTTL, c.Limit, strings.Join(ops, " "), c.Mode, c.Proto, c.OffPick, c.EpochKind, c.Reject, c.ServerTF, c.ClientTF, c.SubMetaTTL, strings.Join(win, " "))
 }
 
 func vfC02Gen(rt *rapid.T) vfC02Case {
@@ -85,6 +90,11 @@ func vfC02Gen(rt *rapid.T) vfC02Case {
 	c.ServerTF = vfTFGenOpt(rt, "stf")
 	c.ClientTF = vfTFGenOpt(rt, "ctf")
 	c.SubMetaTTL = c.MetaTTL
+	if rapid.IntRange(0, 2).Draw(rt, "window") == 0 {
+		for i, n := 0, rapid.IntRange(1, 3).Draw(rt, "windowPubs"); i < n; i++ {
+			c.Window = append(c.Window, vfTagsGen(rt, "wtags"))
+		}
+	}
 	return c
 }
 
@@ -167,6 +177,49 @@ func vfC02Run(t *testing.T, cs vfC02Case, out *vfC02Out) string {
 		conn := w.NewConn(vfConnCfg{Name: "s", User: "u", Proto: cs.Proto, Uni: cs.Mode == 2})
 		var res *protocol.SubscribeResult
 		var replyErr *protocol.Error
+		// Publications issued while the subscribe is parked right after its history read: they are buffered and must be
+		// merged into a recovered reply, and must not appear in a reply that says recovered=false.
+		type winPub struct {
+			Off  uint64
+			Data string
+			Tags map[string]string
+		}
+		var window []winPub
+		windowEpochChange := false
+		gateOn := len(cs.Window) > 0
+		w.broker.Hook = func(op, phase, hch string) error {
+			if gateOn && op == "history" && phase == "after" && hch == ch {
+				w.Gates.Pass("history")
+			}
+			return nil
+		}
+		runParked := func(f func()) {
+			if !gateOn {
+				f()
+				return
+			}
+			w.Gates.Arm("history", 1)
+			done := make(chan struct{})
+			go func() { defer close(done); f() }()
+			vfSettle()
+			if w.Gates.Waiting("history") > 0 {
+				for i, tg := range cs.Window {
+					data := fmt.Sprintf(`{"w":%d}`, i)
+					size := 6
+					pr, err := w.node.Publish(ch, []byte(data), WithHistory(size, time.Duration(cs.TTL)*time.Second, time.Duration(cs.MetaTTL)*time.Second), WithTags(tg))
+					if err != nil || curEpoch == "" || pr.Epoch != curEpoch {
+						windowEpochChange = true // stream (re)created inside the window: C01's known finding territory, not judged here
+					}
+					window = append(window, winPub{Off: pr.Offset, Data: data, Tags: tg})
+				}
+				vfSettle()
+			}
+			gateOn = false
+			w.Gates.Disarm("history")
+			for w.Gates.Release("history") {
+			}
+			<-done
+		}
 		switch cs.Mode {
 		case 0:
 			conn.Connect(nil)
@@ -175,7 +228,7 @@ func vfC02Run(t *testing.T, cs vfC02Case, out *vfC02Out) string {
 				req.Flag |= subscriptionFlagRejectUnrecovered
 			}
 			id := conn.NextID()
-			conn.Cmd(&protocol.Command{Id: id, Subscribe: req})
+			runParked(func() { conn.Cmd(&protocol.Command{Id: id, Subscribe: req}) })
 			vfSettle()
 			for _, f := range conn.Frames() {
 				if f.Err != nil {
@@ -187,7 +240,9 @@ func vfC02Run(t *testing.T, cs vfC02Case, out *vfC02Out) string {
 				}
 			}
 		default:
-			conn.Connect(&protocol.ConnectRequest{Subs: map[string]*protocol.SubscribeRequest{ch: {Recover: true, Offset: reqOffset, Epoch: reqEpoch}}})
+			runParked(func() {
+				conn.Connect(&protocol.ConnectRequest{Subs: map[string]*protocol.SubscribeRequest{ch: {Recover: true, Offset: reqOffset, Epoch: reqEpoch}}})
+			})
 			vfSettle()
 			for _, f := range conn.Frames() {
 				if f.Err != nil {
@@ -217,6 +272,20 @@ func vfC02Run(t *testing.T, cs vfC02Case, out *vfC02Out) string {
 							filteredHit = true
 						}
 					}
+				}
+			}
+		}
+
+		if len(window) > 0 {
+			out.labels = append(out.labels, "publications_inside_subscribe_window")
+			out.nontrivial = true
+			if windowEpochChange {
+				out.labels = append(out.labels, "window_epoch_change_unjudged")
+				return ""
+			}
+			for _, wp := range window {
+				if cs.ServerTF.Match(wp.Tags) && (!clientTFActive || cs.ClientTF.Match(wp.Tags)) {
+					want = append(want, vfC02ModelPub{Off: wp.Off, Tags: wp.Tags, Data: wp.Data})
 				}
 			}
 		}
